@@ -170,12 +170,12 @@ def r14_token_loops(ctx: Context) -> None:
                 rule.ok(key, f"for {norm(node.target)} in {name}")
 
 
-def r14_tokenizer_calls(ctx: Context) -> None:
+def r14_tokenizer_calls(ctx: Context, rule_id: str = "R14k") -> None:
     """'Every pass has this same shape': the scan and each half of a fix pass obtain their token
     stream from the same tokenizer entry with the same options (the end-of-stream token is part of
     the stream the rules are promised).  Sibling call sites of one interface must agree."""
     prog = ctx.prog
-    rule = ctx.rule("R14k", "every per-file pass asks the tokenizer for the stream with the same options", 3)
+    rule = ctx.rule(rule_id, "a scan always tokenizes, and every per-file pass asks the tokenizer for the stream with the same options", 3)
     tokenizer = prog.method("pymarkdown.general.tokenized_markdown.TokenizedMarkdown", "transform_from_provider")
     sites = [site for site in prog.callers.get(tokenizer.qualname, []) if site.caller.cls is not None and site.caller.cls.qualname == FSH]
     if len(sites) < 2:
@@ -193,6 +193,20 @@ def r14_tokenizer_calls(ctx: Context) -> None:
                 given[keyword.arg] = norm(keyword.value)
         return {name: value for name, value in given.items() if name in default_of}
 
+    # a scan always tokenizes: the pragma table is compiled from the stream and the end of the stream is an event of
+    # its own, whatever the enabled rules ask for
+    scan_entry = prog.method(FSH, "__scan_specific_file")
+    fix_entry = prog.method(FSH, "__fix_specific_file")
+    scan_side = prog.reachable([scan_entry], stop={fix_entry.qualname})
+    for site in sites:
+        if site.caller.qualname not in scan_side:
+            continue
+        conditions = [("" if polarity else "not ") + norm(test) for test, polarity in guards_of(site.caller.node, site.node, include_asserts=False)]
+        key = func_key(site.caller, site.node) + " [always tokenized]"
+        if conditions:
+            rule.fail(key, site.where, f"a scanned document is tokenized only when {conditions[:2]}: without the token stream no pragma is compiled (a 'disable-next-line' naming a line rule suppresses nothing) and the rules that are left see another sequence of events")
+        else:
+            rule.ok(key, "unconditional")
     reference = options(sites[0])
     for site in sites:
         key = func_key(site.caller, site.node) + " [tokenizer options]"
@@ -546,6 +560,58 @@ def r14c(ctx: Context, rule_id: str = "R14c") -> None:
             rule.ok(f"{key}: filters", "plugins are passed over only by the pass's context map / rule list and the plugin's id")
 
 
+def dispatch_lists_frozen(ctx: Context, rule_id: str = "R14n") -> None:
+    """The dispatch lists say which rules get which events.  They are rebuilt when the configuration is applied and
+    must stay as they are from then on: a list that is changed while files are processed (a rule dropped after it
+    failed once, a rule added on demand) makes the events a rule receives for one file depend on what happened in the
+    files before it."""
+    prog = ctx.prog
+    rule = ctx.rule(rule_id, "the dispatch lists are written only while the configuration is applied", 4)
+    manager = prog.cls(PM)
+    apply_all = prog.method(PM, "apply_configuration")
+    builders = {q for q in prog.reachable([apply_all]) if prog.functions[q].cls == manager} | {apply_all.qualname}
+    init = manager.methods.get("__init__")
+    if init is not None:
+        builders.add(init.qualname)
+    lists = sorted({n.attr for m in manager.methods.values() for n in walk_local(m.node) if isinstance(n, ast.Attribute) and isinstance(n.ctx, ast.Store) and "enabled_plugins_for" in n.attr})
+    if len(lists) < 4:
+        raise AnalysisError(f"only {lists} found as dispatch lists of the plugin manager (4 confirmed)")
+    mutators = {"append", "extend", "insert", "remove", "pop", "clear", "sort", "reverse"}
+    for name in lists:
+        offenders = []
+        for func in prog.iter_functions():
+            if func.qualname in builders:
+                continue
+            # locals that stand for the list: bound to it directly, or looping over a display that contains it
+            aliases: Set[str] = set()
+            for node in walk_local(func.node):
+                if isinstance(node, ast.Assign) and isinstance(node.value, ast.Attribute) and node.value.attr == name:
+                    aliases |= {t.id for t in node.targets if isinstance(t, ast.Name)}
+                elif isinstance(node, (ast.For, ast.comprehension)) and isinstance(node.target, ast.Name) and isinstance(node.iter, (ast.Tuple, ast.List)) \
+                        and any(isinstance(e, ast.Attribute) and e.attr == name for e in node.iter.elts):
+                    aliases.add(node.target.id)
+            for node in walk_local(func.node):
+                hit = None
+                if isinstance(node, ast.Call) and isinstance(node.func, ast.Attribute) and node.func.attr in mutators and (
+                    isinstance(node.func.value, ast.Attribute) and node.func.value.attr == name or isinstance(node.func.value, ast.Name) and node.func.value.id in aliases
+                ):
+                    hit = node
+                elif isinstance(node, (ast.Assign, ast.AugAssign, ast.Delete)):
+                    targets = node.targets if isinstance(node, (ast.Assign, ast.Delete)) else [node.target]
+                    for target in targets:
+                        base = target.value if isinstance(target, ast.Subscript) else target
+                        if isinstance(base, ast.Attribute) and base.attr == name:
+                            hit = node
+                if hit is not None:
+                    offenders.append((func, hit))
+        key = f"{manager.name}.{name}"
+        if offenders:
+            func, node = offenders[0]
+            rule.fail(key, where(func, node), f"{func.short} changes the dispatch list '{name}' ('{norm(node)[:70]}') outside the application of the configuration: from then on the rules of that list receive other events than the configuration says, for the rest of the run")
+        else:
+            rule.ok(key, "written only by apply_configuration and what it calls")
+
+
 def r14d(ctx: Context) -> None:
     prog = ctx.prog
     rule = ctx.rule("R14d", "dispatch lists are built from the enabled plugins only", 1)
@@ -858,6 +924,23 @@ def r14h(ctx: Context) -> None:
                     rule.ok(key, "split on the newline character")
                 else:
                     rule.fail(key, where(func, node), f"{func.short} splits the document on '{norm(sep) if sep is not None else 'whitespace'}', not on the newline character")
+    # the file is read in universal-newline mode: a carriage return is part of a line ending, never of the line's text
+    opens = 0
+    for func in prog.iter_functions("pymarkdown.general.source_providers."):
+        for site in prog.sites_in(func):
+            if site.external not in ("builtins.open", "io.open", "codecs.open"):
+                continue
+            opens += 1
+            key = func_key(func, site.node) + " [newline mode]"
+            newline = next((k.value for k in site.node.keywords if k.arg == "newline"), site.node.args[5] if len(site.node.args) > 5 else None)
+            mode = next((k.value for k in site.node.keywords if k.arg == "mode"), site.node.args[1] if len(site.node.args) > 1 else None)
+            binary = isinstance(mode, ast.Constant) and isinstance(mode.value, str) and "b" in mode.value
+            if binary or (newline is not None and not (isinstance(newline, ast.Constant) and newline.value is None)):
+                rule.fail(key, site.where, f"{func.short} opens the document with {'a binary mode' if binary else 'newline=' + norm(newline)}: '\\r\\n' and '\\r' line endings are no longer translated, so rules receive lines that end in a carriage return (and a lone '\\r' no longer ends a line)")
+            else:
+                rule.ok(key, "text mode, universal newlines")
+    if opens < 1:
+        raise AnalysisError("the file provider no longer opens the document (anchor moved)")
     if splitters < 2:
         raise AnalysisError(f"only {splitters} line-splitting constructs found in the source providers (3 confirmed)")
     # the file provider strips exactly one trailing newline character per line
@@ -875,6 +958,7 @@ def run(ctx: Context) -> None:
     r14_single_start(ctx)
     r14c(ctx)
     r14d(ctx)
+    dispatch_lists_frozen(ctx)
     r14e(ctx)
     r14f(ctx)
     r14g(ctx)
